@@ -63,6 +63,7 @@ union c33_un { int i; double dd; };
 c33_sv_t c33_mk(int x);
 union c33_un c33_mku(int x);
 long c33_sum(c33_sv_t s);
+long c33_usum(union c33_un u, int k, union c33_un v);
 long c33_sumpts(c33_sv_t *p, int n);
 long c33_sumrows(int (*r)[4], int n);
 """
@@ -72,6 +73,7 @@ union c33_un { int i; double dd; };
 c33_sv_t c33_mk(int x) { c33_sv_t r; r.a = x; r.b = x * 100L + 1; r.c = x * 0.25; r.d = (char)(65 + x % 20); return r; }
 union c33_un c33_mku(int x) { union c33_un u; u.dd = 0; u.i = x * 3; return u; }
 long c33_sum(c33_sv_t s) { return s.a + s.b + (long)(s.c * 4) + s.d; }
+long c33_usum(union c33_un u, int k, union c33_un v) { return u.i * 7L + k + v.i * 1000L; }
 long c33_sumpts(c33_sv_t *p, int n) { long t = 0; int i; for (i = 0; i < n; i++) t += c33_sum(p[i]); return t; }
 long c33_sumrows(int (*r)[4], int n) { long t = 0; int i, k; for (i = 0; i < n; i++) for (k = 0; k < 4; k++) t += r[i][k]; return t; }
 """
@@ -343,11 +345,13 @@ def prop(case, ctx):
         held = [lib.c33_mk(x) for x in xs]
         heldu = [lib.c33_mku(x) for x in xs]
         sums = [lib.c33_sum(h) for h in held]
-        return [[(h.a, h.b, h.c, h.d) for h in held], [u.i for u in heldu], sums]
-    check('struct/union by value: c33_mk, c33_mku, c33_sum',
+        usums = [lib.c33_usum(u, 5, heldu[0]) for u in heldu] + [lib.c33_usum({'i': 2}, 1, [4])]
+        return [[(h.a, h.b, h.c, h.d) for h in held], [u.i for u in heldu], sums, usums]
+    check('struct/union by value: c33_mk, c33_mku, c33_sum, c33_usum',
           [_outcome(lambda e=e: by_value(e)) for e in ENGINES], 'struct-by-value-results-kept',
           expected=[[(x, x * 100 + 1, x * 0.25, bytes([65 + x % 20])) for x in xs], [x * 3 for x in xs],
-                    [x + x * 100 + 1 + x + 65 + x % 20 for x in xs]])
+                    [x + x * 100 + 1 + x + 65 + x % 20 for x in xs],
+                    [x * 3 * 7 + 5 + xs[0] * 3 * 1000 for x in xs] + [2 * 7 + 1 + 4 * 1000]])
 
     # 0b. pointer arguments given as lists of *partial* initialisers (what is not mentioned must read
     #     as zero), below and above the 640-byte threshold between stack and heap temporaries
